@@ -41,7 +41,10 @@ Definition inventory : list (string * string * fkind) := [
   ("ProcessSequence", "_allProcesses", Constant);
   ("CompartmentedModel", "_compartments", PerRun "reset"); ("CompartmentedModel", "_effects", PerRun "reset");
   ("CompartmentedModel", "COMPARTMENT", Constant); ("CompartmentedModel", "OCCUPIED", Constant);
-  ("Monitor", "_timeSeries", PerRun "reset")
+  ("Monitor", "_timeSeries", PerRun "reset");
+  (* loci are objects created by build(), i.e. per run; their own fields never change *)
+  ("CompartmentedNodeLocus", "_compartment", Constant);
+  ("CompartmentedEdgeLocus", "_left", Constant); ("CompartmentedEdgeLocus", "_right", Constant)
 ]%string.
 
 Definition fname_eqb (a b : string * string) : bool := String.eqb (fst a) (fst b) && String.eqb (snd a) (snd b).
